@@ -26,3 +26,7 @@ func verifHookClientVersions(c *Conn, legacyVersion uint16, versions []uint16) [
 }
 
 func verifHookAfterServerFlight13(hs *serverHandshakeStateTLS13) error { return nil }
+
+func verifHookServerCookieHRR13(hs *serverHandshakeStateTLS13) error { return nil }
+
+func verifHookSecondClientHello13(c *Conn, ch *clientHelloMsg) {}
